@@ -25,6 +25,18 @@ def listArg? (key : String) (s : String) : Option (List String) :=
     if r = "" then some [] else some ((r.splitOn ",").map tok)
   else none
 
+def findArg (key : String) (args : List String) : Option (List String) :=
+  args.findSome? (listArg? key)
+
+def findInt (key : String) (args : List String) : Option Int :=
+  match findArg key args with
+  | some [v] => int? v
+  | _ => none
+
+def findStr (key : String) (args : List String) : Option String :=
+  let p := key ++ "="
+  args.findSome? (fun a => if a.startsWith p then some (tok (a.drop p.length).toString) else none)
+
 def joinC (l : List String) : String := ",".intercalate (l.map untok)
 def joinS (l : List String) : String := " ".intercalate l
 
